@@ -224,7 +224,16 @@ class Analyzer:
             if isinstance(st, ast.For):
                 it = self.ev(st.iter, env)
                 # loop variable: an element of the iterable (a key, for a dict)
-                self.assign(st.target, IMM if it.isdict else it.down(), env, st)
+                items = isinstance(st.iter, ast.Call) and isinstance(st.iter.func, ast.Attribute) \
+                    and st.iter.func.attr == "items" and not st.iter.args \
+                    and isinstance(st.target, ast.Tuple) and len(st.target.elts) == 2
+                if items:
+                    # for k, v in d.items(): the key is immutable, the value an element of d
+                    d = self.ev(st.iter.func.value, env)
+                    self.assign(st.target.elts[0], IMM, env, st)
+                    self.assign(st.target.elts[1], d.down(), env, st)
+                else:
+                    self.assign(st.target, IMM if it.isdict else it.down(), env, st)
             else:
                 self.ev(st.test, env)
             for _ in range(3):
